@@ -82,7 +82,6 @@ def run_arb_case(case, judged):
         if name in judged:
             mon.fail(name, msg, **detail)
         mon.count("foreign_monitor_fired:" + name)
-        raise Stop()
 
     def check(name, cond, msg):
         mon.counters[name] += 1
